@@ -16,19 +16,19 @@ PROPS = {
     ),
     "C02": dict(
         tracer_units=GROUP_UNITS + ["Trig"],
-        coq_targets=["Props/Properties_C02.vo", "Props/Properties_C02t.vo"],
-        coq_targets_thorough=["Props/Properties_C02x.vo"],
-        props_files=["Props/Properties_C02.v", "Props/Properties_C02t.v"],
-        props_files_thorough=["Props/Properties_C02x.v"],
+        coq_targets=["Props/Properties_C02.vo", "Props/Properties_C02t.vo", "Props/Properties_C02l.vo"],
+        coq_targets_thorough=["Props/Properties_C02x.vo", "Props/Properties_C02lx.vo"],
+        props_files=["Props/Properties_C02.v", "Props/Properties_C02t.v", "Props/Properties_C02l.v"],
+        props_files_thorough=["Props/Properties_C02x.v", "Props/Properties_C02lx.v"],
         cone=["Proofs/C02_*.v", "Props/Properties_C02*.v", "Doc/Exp.v", "Base/Kernels.v", "Base/Trig.v"],
         harnesses=[dict(name="h_c02")],
         trusted_base=TB_COMMON + ["Doc/Exp.v: hand-written closed-form flows t |-> Phi_a(t) (Rodrigues etc.), proved in Coq to solve Phi' = Phi hat(a), Phi(0)=I; `is_mexp` = value at 1 of such a curve (uniqueness of the ODE solution is classical and not formalised)",
                                   "harness/h_c02.cpp + docmat.hpp: long-double scaling-and-squaring Taylor oracle for expm(hat a)"],
         assumptions=["rounding is not modelled: the 1e-9/1e-3 accuracy clause and the log round trips are decided by the oracle harness on stratified inputs",
-                     "log (range and round trips) is covered by the harness only; truncation theorems are at kernel level (trig.hpp) and at function level for SO3/SE2 exp"],
+                     "log: range and both exact round trips are theorems for SO2 and C1 (unconditional), SO3 and SE2 (closed-form branches of exp and log; SO3 on the canonical hemisphere qw >= 0; SE2 for angles strictly inside (-pi, pi); SE3 both round trips in the thorough tier for angles below pi); the series branches of log, Galilei/SE_K_3 log and the behaviour at exactly pi are decided by the harness; truncation theorems are at kernel level (trig.hpp) and at function level for SO3/SE2 exp"],
     ),
     "C06": dict(
-        tracer_units=["SO2", "SO3", "SE2", "SE3", "SE3H", "C1", "Rn", "BA", "BB", "BC", "BD", "BEi", "BE", "BF"],
+        tracer_units=["SO2", "SO3", "SE2", "SE3", "SE3H", "C1", "Rn", "BA", "BB", "BC", "BD", "BEi", "BE", "BF", "BG"],
         coq_targets=["Props/Properties_C06.vo"],
         coq_targets_thorough=["Props/Properties_C06x.vo"],
         props_files=["Props/Properties_C06.v"],
@@ -36,7 +36,7 @@ PROPS = {
         cone=["Proofs/C06_*.v", "Props/Properties_C06*.v"],
         harnesses=[dict(name="h_c06")],
         trusted_base=TB_COMMON + ["harness/h_c06.cpp: bundle-vs-parts equality on the real double instantiation for 11 compositions (5 of them not traced) and vector/scalar additive-group checks"],
-        assumptions=["'every composition': theorems cover the traced pool (7 compositions incl. nesting/repetition/commutative members; 2 of them in the thorough tier); further compositions only by the harness pool",
+        assumptions=["'every composition': theorems cover the traced pool (8 compositions incl. nesting/repetition/commutative members T1xC1xSO2; 2 of them in the thorough tier); further compositions only by the harness pool",
                      "matrix()/hat() of Bundles are not traced (Eigen-vector members have no class API); the direct-product matrix form follows from C01 per part"],
     ),
     "C17": dict(
@@ -52,15 +52,15 @@ PROPS = {
     ),
     "C04": dict(
         tracer_units=["SO3", "SE2", "SE3"],
-        coq_targets=["Props/Properties_C04.vo"],
+        coq_targets=["Props/Properties_C04.vo", "Props/Properties_C04t.vo"],
         coq_targets_thorough=["Props/Properties_C04x.vo"],
-        props_files=["Props/Properties_C04.v"],
+        props_files=["Props/Properties_C04.v", "Props/Properties_C04t.v"],
         props_files_thorough=["Props/Properties_C04x.v"],
-        cone=["Proofs/C04_*.v", "Props/Properties_C04*.v"],
+        cone=["Proofs/C04_*.v", "Props/Properties_C04*.v", "Base/KernelA.v"],
         harnesses=[dict(name="h_c04")],
         trusted_base=TB_COMMON + ["Coquelicot's is_derive / auto_derive; Doc/Exp.v flows (proved to be the matrix exponential in the ODE sense, C02)",
                                   "harness/h_c04.cpp + jacoracle.hpp: long-double oracle Jr(a) = int_0^1 expm(-s ad_a) ds and its inverse; action Jacobian from documented matrices"],
-        assumptions=["theorems cover the closed-form paths of SO3, SE2 (quick) and SE3 (thorough): inverse relation, right-Jacobian by definition, left variant; Galilei/SE_K_3, the series paths, the series identity sum (-1)^k ad^k/(k+1)!, dr_action and dr_rminus* are decided by the oracle harness",
+        assumptions=["theorems cover the closed-form paths of SO3, SE2 (quick) and SE3 (thorough): inverse relation, right-Jacobian by definition, left variant; for dr_expinv of SO3 and SE2 the series path and the closed-form path are proved to be the same matrix polynomial in the kernel value A, with |K_A(theta) - (1/12 + theta^2/720)| <= 4e-21 below the switch (Base/KernelA.v, from the stdlib alternating-series enclosures); Galilei/SE_K_3, the other series paths, the series identity sum (-1)^k ad^k/(k+1)!, dr_action and dr_rminus* are decided by the oracle harness",
                      "rounding is not modelled"],
     ),
     "C11": dict(
@@ -87,12 +87,14 @@ PROPS = {
     ),
     "C03": dict(
         tracer_units=GROUP_UNITS,
-        coq_targets=["Props/Properties_C03.vo"],
-        props_files=["Props/Properties_C03.v"],
-        cone=["Proofs/C03_*.v", "Props/Properties_C03.v"],
+        coq_targets=["Props/Properties_C03.vo", "Props/Properties_C03e.vo"],
+        coq_targets_thorough=["Props/Properties_C03x.vo"],
+        props_files=["Props/Properties_C03.v", "Props/Properties_C03e.v"],
+        props_files_thorough=["Props/Properties_C03x.v"],
+        cone=["Proofs/C03_*.v", "Props/Properties_C03*.v"],
         harnesses=[dict(name="h_c03")],
         trusted_base=TB_COMMON + ["harness/h_c03.cpp + docmat.hpp: long-double oracle (conjugation by documented matrices, commutators, scaling-and-squaring matrix exponential)"],
-        assumptions=["Ad(exp a) = expm(ad a) is checked numerically (harness) and, in exact arithmetic, follows from C02/C03 theorems only in ODE form (see DESIGN.md); rounding not modelled"],
+        assumptions=["Ad(exp a) = expm(ad a): theorem in ODE form (is_mexp: Ad of the C02 flow solves Phi' = Phi ad(a), Phi(0) = I, Phi(1) = traced Ad(traced exp a)) for SO3 and SE2, SE3 in the thorough tier, closed-form paths of exp; the other groups, the series paths and rounding are decided by the harness"],
     ),
 }
 
@@ -105,7 +107,7 @@ MANIFEST_TEXT = {
     ),
     "C04": dict(
         technique="Coq proof over the regenerated model: Coquelicot auto_derive of the (proved) exponential flow w.r.t. every tangent coordinate equals flow * hat(column of the traced dr_exp) - the defining relation of the right Jacobian; field proofs that the traced dr_expinv is its inverse and dl_exp = Ad(exp) dr_exp; translator validation; long-double integral oracle harness",
-        text="For SO3, SE2 (and SE3 in the thorough tier) and every tangent vector on the closed-form side of the switch: machine-checked that d/da_k exp(a) = exp(a) hat(dr_exp(a) e_k) entry by entry (exp(a) being the flow that C02 proves equal to the traced exp and to be the matrix exponential), that the traced dr_expinv is the two-sided matrix inverse of the traced dr_exp (sin theta <> 0), and that dl_exp(a) = Ad(exp a) dr_exp(a) across both sign-canonicalisation outcomes. The regenerated model makes any changed coefficient or sign in calc_S1/cos_2/sin_3/calculate_q break an obligation. All groups, float/double, the series branches, dr_action, dr_rminus and dr_rminus_squarednorm are checked against an independent long-double oracle Jr(a)=int_0^1 expm(-s ad a) ds on stratified inputs.",
+        text="For SO3, SE2 (and SE3 in the thorough tier) and every tangent vector on the closed-form side of the switch: machine-checked that d/da_k exp(a) = exp(a) hat(dr_exp(a) e_k) entry by entry (exp(a) being the flow that C02 proves equal to the traced exp and to be the matrix exponential), that the traced dr_expinv is the two-sided matrix inverse of the traced dr_exp (sin theta <> 0), and that dl_exp(a) = Ad(exp a) dr_exp(a) across both sign-canonicalisation outcomes. The regenerated model makes any changed coefficient or sign in calc_S1/cos_2/sin_3/calculate_q break an obligation. Below the switch the series path of dr_expinv (SO3, SE2) is proved to be the same matrix polynomial as the closed-form path with the kernel 1/t^2-(1+cos t)/(2t sin t) replaced by 1/12+t^2/720, the two differing by at most 4e-21 (kernel enclosure proved from the alternating series of sin and cos). All groups, float/double, the remaining series branches, dr_action, dr_rminus and dr_rminus_squarednorm are checked against an independent long-double oracle Jr(a)=int_0^1 expm(-s ad a) ds on stratified inputs.",
         note="Trusted: Coq kernel, Coquelicot; translator (validated each run); rounding not modelled. Known findings C04-K1-* (cancellation just above the switch; Galilei double, dr_rminus_squarednorm, single precision).",
         design_ref="DESIGN.md section 5 C04",
     ),
@@ -123,19 +125,19 @@ MANIFEST_TEXT = {
     ),
     "C06": dict(
         technique="Coq proof over the regenerated model: traced Bundle operation = concatenation / block-diagonal / stacked-Hessian arrangement of the separately traced part operations on the part<i>() segments (path-matching + reflexivity); Eigen vectors and scalars proved additive; translator validation; bundle-vs-parts harness",
-        text="For a pool of Bundle compositions (SO3xT3, T2xSE2, SE2xSO3xT1xSO2, SO3xSO3, SO2xT2, (SO2xT2)xSE3, C1xSE3) traced through the generic LieGroup interface: machine-checked that composition/inverse/log/exp/identity equal the concatenation of the same traced operation of each part on its segment (on every path, paths matched), Ad/ad/dr_exp/dr_expinv equal the block-diagonal arrangement, d2r_exp/d2r_expinv equal the documented stacked-Hessian placement, and part<i>() views the segment at the prefix sum of the RepSizes. For Eigen::Vector<N> (N=1..4), VectorX (n=0,1,3,5) and the scalar type: composition = +, inverse = -, exp = log = id, Ad = dr_exp = dr_expinv = I, ad = 0, Hessians = 0. Offsets are baked into the regenerated model, so a wrong prefix sum or block placement breaks reflexivity.",
+        text="For a pool of Bundle compositions (SO3xT3, T2xSE2, SE2xSO3xT1xSO2, SO3xSO3, SO2xT2, T1xC1xSO2, (SO2xT2)xSE3, C1xSE3) traced through the generic LieGroup interface: machine-checked that composition/inverse/log/exp/identity equal the concatenation of the same traced operation of each part on its segment (on every path, paths matched), Ad/ad/dr_exp/dr_expinv equal the block-diagonal arrangement, d2r_exp/d2r_expinv equal the documented stacked-Hessian placement, and part<i>() views the segment at the prefix sum of the RepSizes. For Eigen::Vector<N> (N=1..4), VectorX (n=0,1,3,5) and the scalar type: composition = +, inverse = -, exp = log = id, Ad = dr_exp = dr_expinv = I, ad = 0, Hessians = 0. Offsets are baked into the regenerated model, so a wrong prefix sum or block placement breaks reflexivity.",
         note="Trusted: Coq kernel; translator (validated each run); 'every composition' is a pool of traced instances plus further compositions in the harness.",
         design_ref="DESIGN.md section 5 C06",
     ),
     "C02": dict(
         technique="Coq proof over the regenerated model: traced exp (closed-form path) = hand-written flow Phi_a(1), flows proved to solve the matrix ODE with Coquelicot; kernel truncation bounds from stdlib alternating-series enclosures; translator validation; long-double expm oracle harness",
-        text="For SO2, SO3, SE2, SE3, C1, Galilei, SE_K_3<1..3>: machine-checked that on every closed-form path of the traced exp (rotation norm^2 > eps2, both sign-canonicalisation outcomes) the documented matrix of the result equals the textbook closed-form flow at t=1 and satisfies the representation constraint; that each flow solves Phi'=Phi hat(a), Phi(0)=I for all t (so exp(a) is the matrix exponential, `is_mexp`); that rotation-free tangents are exact on the series path; and that on 0<x^2<=eps2 the series and closed-form paths of every detail/trig.hpp kernel (and of SO3/SE2 exp at coefficient level) differ by <=1e-24-scale bounds. A changed coefficient, Taylor order, threshold or block breaks an obligation. log range/round trips and the floating-point accuracy clause by oracle harness (stratified incl. both sides of the switch, near pi, norms to 50).",
+        text="For SO2, SO3, SE2, SE3, C1, Galilei, SE_K_3<1..3>: machine-checked that on every closed-form path of the traced exp (rotation norm^2 > eps2, both sign-canonicalisation outcomes) the documented matrix of the result equals the textbook closed-form flow at t=1 and satisfies the representation constraint; that each flow solves Phi'=Phi hat(a), Phi(0)=I for all t (so exp(a) is the matrix exponential, `is_mexp`); that rotation-free tangents are exact on the series path; and that on 0<x^2<=eps2 the series and closed-form paths of every detail/trig.hpp kernel (and of SO3/SE2 exp at coefficient level) differ by <=1e-24-scale bounds. Log: for SO2 and C1 (all inputs), SO3 and SE2 (closed-form branches) the principal range / norm <= pi, exp(log g) = g and log(exp a) = a (rotation norm below pi) are machine-checked coefficient-wise over the traced log and exp. A changed coefficient, Taylor order, threshold or block breaks an obligation. The remaining log cases and the floating-point accuracy clause by oracle harness (stratified incl. both sides of the switch, near pi, norms to 50).",
         note="Trusted: Coq kernel + Coquelicot; translator (validated each run); hand-written flows; uniqueness of ODE solutions not formalised; rounding not modelled. Known findings C02-K1 (Galilei exp just above the switch).",
         design_ref="DESIGN.md section 5 C02",
     ),
     "C03": dict(
         technique="Coq proof over the regenerated model (ring/field identities against documented hat/matrix forms) + translator validation + long-double oracle harness",
-        text="Machine-checked theorems for SO2, SO3, SE2, SE3, C1, Galilei, SE_K_3<1..3>, for all elements/tangents: traced hat = documented algebra matrix, vee(hat a)=a and hat(vee A)=A on the algebra, linearity, hat(Ad_g a) mat(g) = mat(g) hat(a) (the conjugation definition; mat(g) invertible by C01), hat(ad_a b) = [hat a, hat b], lie_bracket = ad a * b (incl. the commutative short-cuts of the base class), antisymmetry, Jacobi, Ad(g1 g2)=Ad(g1)Ad(g2). Regenerated model: any changed entry/sign/block of Ad/ad/hat/vee breaks a ring obligation. Ad(exp a)=expm(ad a) by oracle harness.",
+        text="Machine-checked theorems for SO2, SO3, SE2, SE3, C1, Galilei, SE_K_3<1..3>, for all elements/tangents: traced hat = documented algebra matrix, vee(hat a)=a and hat(vee A)=A on the algebra, linearity, hat(Ad_g a) mat(g) = mat(g) hat(a) (the conjugation definition; mat(g) invertible by C01), hat(ad_a b) = [hat a, hat b], lie_bracket = ad a * b (incl. the commutative short-cuts of the base class), antisymmetry, Jacobi, Ad(g1 g2)=Ad(g1)Ad(g2). Regenerated model: any changed entry/sign/block of Ad/ad/hat/vee breaks a ring obligation. Ad(exp a) is the matrix exponential of ad(a) (ODE characterisation through the C02 flows) for SO3 and SE2 (SE3 in the thorough tier) on the closed-form paths of exp; for the remaining groups and the series paths by oracle harness.",
         note="Trusted: Coq kernel; translator (validated each run); hand-transcribed documented forms; Galilei Ad is traced through the guarded hook (Scalar t instead of double t) and the double build is compared by the harness. Known finding C03-K1 (inherits C02-K1).",
         design_ref="DESIGN.md section 5 C03",
     ),
